@@ -12,9 +12,9 @@ open WorkflowModel.Gen
 
 /-- consume: recv, (lag timer), filter, ack-if-filtered, handle, ack — errors propagate before the ack -/
 def consume : Bool := Order.consume == ["receiver.Recv!", "clock.NewTimer", "FilterUsing", "ack!", "consumeFn!", "ack!"]
-/-- relay: list, (idle wait), new sender, send, delete — each error aborts the cycle -/
+/-- relay: list, (idle wait), new sender, send, close the sender, delete — each error aborts the cycle -/
 def purgeOutbox : Bool := Order.purgeOutbox ==
-  ["recordStore.ListOutboxEvents!", "wait!", "stream.NewSender!", "producer.Send!", "recordStore.DeleteOutboxEvent!"]
+  ["recordStore.ListOutboxEvents!", "wait!", "stream.NewSender!", "producer.Send", "producer.Close", "recordStore.DeleteOutboxEvent!"]
 def runOnce : Bool := Order.runOnce == ["awaitRole", "cancel:defer", "process", "clock.NewTimer"]
 def stepConsumer : Bool := Order.stepConsumer == ["lookupFn!", "buildRun!", "stepLogic!", "maybePause!", "skipUpdate?", "updater!"]
 def updater : Bool := Order.updater == ["Marshal!", "graph.IsTerminal", "lookup!", "validateTransition!", "updateRecord!"]
@@ -27,6 +27,8 @@ def inserter : Bool := Order.inserter ==
   ["config.TimerFunc!", "w.timeoutStore.Create!", "w.eventStreamer.NewReceiver!", "stream.Close:defer", "consume!"]
 def runDelete : Bool := Order.runDelete == ["lookup!", "customDeleteFn!", "updateRecord!"]
 def autoRetry : Bool := Order.autoRetry == ["lookupFn!", "controller.Resume!"]
+def pollTimeouts : Bool := Order.pollTimeouts ==
+  ["w.timeoutStore.ListValid!", "w.recordStore.Lookup!", "w.timeoutStore.Cancel!", "processTimeout!", "wait!"]
 def maybePause : Bool := Order.maybePause == ["counter.Add", "run.Pause!", "counter.Clear"]
 def runHook : Bool := Order.runHook == ["lookup!", "Unmarshal", "hook!"]
 def rscUpdate : Bool := Order.rscUpdate == ["updateRecord!"]
